@@ -121,6 +121,15 @@ func mdRender(content fs.FS, src string) (string, error) {
 	return buf.String(), err
 }
 
+var commentRe = regexp.MustCompile(`(?s)<!--.*?-->`)
+var soupRe = regexp.MustCompile(`<[A-Za-z/!?][^>]*(<|$)`)
+
+// c20TagSoup: the reference output contains raw HTML with a tag that is not closed before the
+// next "<" (or the end).
+func c20TagSoup(ref string) bool {
+	return soupRe.MatchString(commentRe.ReplaceAllString(ref, ""))
+}
+
 var dataOvRe = regexp.MustCompile(` data-ov="([a-z_]+)"`)
 
 func (c *c20Case) Run(ctx *core.Ctx) {
@@ -141,10 +150,17 @@ func (c *c20Case) Run(ctx *core.Ctx) {
 		got, want := c20Project(out), c20Project(ref)
 		gs, ws := htmlcmp.String(got), htmlcmp.String(want)
 		ctx.Outcome(ws)
+		if gs != ws && c20TagSoup(ref) {
+			// raw HTML passed through by Markdown contains an unterminated tag: what an HTML
+			// parser makes of it depends on the layout whitespace that follows, on both sides
+			ctx.Zone("raw-html-with-unterminated-tag")
+			return
+		}
 		if gs != ws {
 			// cause-based classification: the <br></br> serialisation (C02 finding) doubles hard breaks
 			if g2 := htmlcmp.String(c20Project(strings.ReplaceAll(out, "</br>", ""))); g2 == ws {
-				ctx.Violation("reference-mismatch", where, "hard-break-br-doubled", fmt.Sprintf("src %q\nvuego %q\n ref  %q", c.Src, clip(out, 400), clip(ref, 400)))
+				// (one finding whatever block contains the break)
+				ctx.Violation("reference-mismatch", c.Part, "hard-break-br-doubled", fmt.Sprintf("src %q\nvuego %q\n ref  %q", c.Src, clip(out, 400), clip(ref, 400)))
 				return
 			}
 			w, t := c02Diff(got, want)
@@ -296,15 +312,11 @@ func init() {
 		CPUBudget: 30,
 		Rule: "inline part: every token sequence up to the bound over 21 inline tokens (words, emphasis delimiters, code span, link with title, image, autolink, raw HTML, entities, bare < and &, backslash escapes, mustache text, hard and soft breaks, strikethrough) inside 6 block contexts (paragraph, heading, list item, blockquote, table cell, strong); blocks part: every sequence of <=2 blocks over 19 block kinds; " +
 			"oracle: normalised DOM equals that of goldmark's own GFM HTML renderer (heading ids, align attr vs text-align style, start=1 projected away). source part: hostile token strings as Markdown must render without error. override part: subsets of 16 of the 17 default templates replaced by marker variants through the content filesystem: markers appear on exactly the overridden kinds and nothing else changes. non-trivial = all",
-		Bounds:      map[string]string{"quick": "inline token sequences of length <=2 in 6 contexts; override subsets of size <=2 and the full set", "thorough": "inline token sequences of length <=3; all override subsets of size <=3 and >=15"},
+		Bounds:      map[string]string{"quick": "inline token sequences of length <=3 in 7 contexts; override subsets of size <=2 and the full set", "thorough": "inline token sequences of length <=3 over all tokens and of length 4 over the first 18; all override subsets of size <=3 and >=15"},
 		Assumptions: []string{"goldmark's GFM renderer with html.WithUnsafe is the CommonMark/GFM reference", "whitespace between blocks and attribute order are insignificant"},
 		Decode:      core.DecodeAs[c20Case](),
 		Enumerate: func(tier string, emit func(core.Case)) {
-			maxLen := 2
-			if tier == "thorough" {
-				maxLen = 3
-			}
-			tokenStrings(c20Inline, maxLen, func(tok []int) {
+			inline := func(tok []int) {
 				in := joinTokens(c20Inline, tok)
 				if strings.TrimSpace(in) == "" {
 					return
@@ -312,7 +324,22 @@ func init() {
 				for _, cx := range []string{"para", "heading", "item", "quote", "quote2", "cell", "strong"} {
 					emit(&c20Case{Part: "inline", Ctx: cx, Tok: append([]int(nil), tok...), Src: c20Block(cx, in)})
 				}
-			})
+			}
+			tokenStrings(c20Inline, 3, inline)
+			if tier == "thorough" {
+				// length 4 over the first 18 tokens (words, delimiters, code span, link, image, autolink, raw HTML, entities, escapes, mustache, hard break)
+				var rec func(tok []int)
+				rec = func(tok []int) {
+					if len(tok) == 4 {
+						inline(tok)
+						return
+					}
+					for i := 0; i < 18; i++ {
+						rec(append(tok, i))
+					}
+				}
+				rec(nil)
+			}
 			for _, a := range c20Blocks {
 				emit(&c20Case{Part: "blocks", Src: a})
 				for _, b := range c20Blocks {
